@@ -360,17 +360,35 @@ def r08_5(ck):
     ck.require(ok, 'R08.5', f, a,
                'the updater is applied to (current value, update)',
                'updater called with %s' % A.unparse(c), a)
-    ga = cfg.guards(cfg.node(a))
     upd_name = A.params_of(f.node)[1]
-    valdep = {x for x in ga if x[0] in ('truthy', 'falsy', '==', '!=', 'is',
-                                        'isnot') and upd_name in
-              ' '.join(str(y) for y in x[1:]).split()}
+    valdep = []
+    for cond, pol in cfg.guard_edges(cfg.node(a)):
+        for x in ast.walk(cond):
+            if not (isinstance(x, ast.Name) and x.id == upd_name):
+                continue
+            par = x._parent
+            structural = False
+            # isinstance(update, dict)
+            if isinstance(par, ast.Call) and A.is_name(par.func,
+                                                       'isinstance') and \
+                    par.args and par.args[0] is x and 'dict' in A.unparse(
+                        par.args[1]):
+                structural = True
+            # KEY in update / update.keys() / set(update.keys())
+            if isinstance(par, ast.Compare) and isinstance(
+                    par.ops[0], (ast.In, ast.NotIn)) and \
+                    par.comparators[0] is x:
+                structural = True
+            if isinstance(par, ast.Attribute) and par.attr == 'keys':
+                structural = True
+            if not structural:
+                valdep.append(A.unparse(cond))
     ck.require(not valdep, 'R08.5', f, a,
                'the updater is applied whatever the value of the update '
                '(0, False, "" and {} are updates too)',
                'the leaf update is skipped depending on the value of the '
-               'update (%s): a `set` to 0/False/"" would be lost' % sorted(
-                   valdep), a)
+               'update (`%s`): a `set` to 0 / False / "" would be lost' % (
+                   valdep[0] if valdep else ''), a)
     conv = set()
     skip = set()
     for s in A.walk_no_nested(f.node):
